@@ -289,6 +289,11 @@ func (oracleC11) Invariant(x *OCtx, v *View, m *Mon) []Violation {
 			x.Wit("C11:" + s + "-context-without-event")
 		}
 	}
+	for _, a := range v.Active { // the provider's pending list (markers by binding)
+		if v.Reqs[a.Req] == nil {
+			add("pending-request-has-record", "no-record/by-binding", "pending marker (by binding) without request record "+shortReq(a.Req))
+		}
+	}
 	for _, id := range v.PendingIDs() {
 		r := v.Reqs[id]
 		if r == nil {
@@ -333,8 +338,11 @@ func (oracleC16) Invariant(x *OCtx, v *View, m *Mon) []Violation {
 		case r.RequestContextBatchCounter != c.BatchCounter:
 			add("request-record-in-current-batch-of-existing-context", "old-batch", fmt.Sprintf("request record %s of batch %d, context at %d", shortReq(id), r.RequestContextBatchCounter, c.BatchCounter))
 		default:
-			if _, ok := v.ExpH[cid]; !ok {
+			if h, ok := v.ExpH[cid]; !ok {
 				add("request-record-in-current-batch-of-existing-context", "no-expiry-pending", "request record "+shortReq(id)+" but no expiry pending for its context")
+			} else if h < v.H {
+				// the block that should have removed it is over
+				add("expired-batch-leaves-no-record", "expiry-in-the-past", fmt.Sprintf("request record %s is still there at height %d, its batch expired at %d", shortReq(id), v.H, h))
 			}
 			x.Wit("C16:request-record-ok")
 		}
